@@ -80,7 +80,7 @@ func TestCheck(t *testing.T) {
 		os.Exit(replay(t, id, tier, f))
 	}
 	if mk := histChecks[id]; mk != nil {
-		os.Exit(runHist(id, tier, mk(tier)))
+		os.Exit(runHist(t, id, tier, mk(tier)))
 	}
 	if f := otherChecks[id]; f != nil {
 		os.Exit(f(t, tier))
@@ -89,7 +89,11 @@ func TestCheck(t *testing.T) {
 	os.Exit(2)
 }
 
-func runHist(id, tier string, scens []*hist.Scenario) int {
+// extraAfterHist: additional (scheduler) scenarios of a history property; their
+// coverage is merged into the same evidence file.
+var extraAfterHist = map[string]func(t *testing.T, tier string) (map[string]any, []report.Viol, error){}
+
+func runHist(t *testing.T, id, tier string, scens []*hist.Scenario) int {
 	t0 := time.Now()
 	exe, err := os.Executable()
 	if err != nil {
@@ -155,6 +159,23 @@ func runHist(id, tier string, scens []*hist.Scenario) int {
 	cov["pulls_returning_messages"] = nonEmpty
 	cov["rule_hits"] = ruleHits
 	cov["foreign_rule_hits"] = foreign
+	if extra := extraAfterHist[id]; extra != nil && os.Getenv("VERIF_NO_SCHED") == "" {
+		ecov, ev, err := extra(t, tier)
+		if err != nil {
+			fmt.Fprintf(os.Stderr, "check %s: scheduler scenarios: harness error: %v\n", id, err)
+			return 2
+		}
+		for k, v := range ecov {
+			cov[k] = v
+		}
+		if x, ok := ecov["schedule_executions"].(int); ok {
+			cov["traces_validated_against_impl"] = trans + x
+		}
+		if x, ok := ecov["schedules_exhaustive"].(bool); ok && !x {
+			cov["exhaustive"] = false
+		}
+		all = append(all, ev...)
+	}
 	cov["explanation"] = "explicit-state BFS over operation histories; every transition is one real API call on the repository code + SQLite under virtual time, compared with the reference model; states deduplicated by canonical table dump + model digest; there is no separate model trace to validate: every transition IS an implementation execution"
 	ev := report.Evidence{PropertyID: id, Tier: tier, Seed: report.Seed(), Level: "model_checking", Coverage: cov,
 		Assumptions: []string{"SQLite backend only", "gRPC handler objects driven in-process (no HTTP/2)", "clock moves land >=0.4s away from every deadline", "1µs virtual time per SQL statement"}}
